@@ -450,6 +450,7 @@ def run(prog, rep, tier):
         body = one_body(prog, rep, 'R06.5', 'mla', adt=adt, name=fn)
         if body is None:
             continue
+        body = inlined_body(prog, body, depth=1, skip=('build_nonce', 'load_in_cache', 'load_in_cache_unauthenticated'))     # the two readers may share one body parameterised by the chunk loader
         stores = [(b.idx, i, s) for b in body.blocks if not b.cleanup for i, s in enumerate(b.stmts) if s.kind == 'assign' and place_fields(s.place)[-1:] == [fld]]
         ok = len(stores) == 1
         msg = 'expected exactly one store to %s, found %d' % (fld, len(stores))
@@ -461,7 +462,8 @@ def run(prog, rep, tier):
             msg = '%s = %s + 1' % (fld, fld) if ok else 'counter update is not `%s + 1`' % fld
             if ok:
                 # the store dominates every cipher construction / chunk load of the function
-                uses = [b for b in body.calls() if cnorm(b.term) in ('layers::encrypt::build_nonce',) or b.term.cmethod in ('load_in_cache', 'load_in_cache_unauthenticated')]
+                uses = [b for b in body.calls() if cnorm(b.term) in ('layers::encrypt::build_nonce',) or b.term.cmethod in ('load_in_cache', 'load_in_cache_unauthenticated')
+                        or (indirect_target(body, b.term) or '').rsplit('::', 1)[-1] in ('load_in_cache', 'load_in_cache_unauthenticated')]
                 ok = bool(uses) and all(body.dominates(bb, u.idx) for u in uses)
                 if not ok:
                     msg = 'counter increment does not dominate the next nonce construction / chunk load'
